@@ -233,6 +233,9 @@ def _worker(chunk):
 TWO_WRITERS = [
     ("sweep_src", "sum", "sweep_op"), ("sweep_src", "sum", "sweep_op", "ren_tv_a"), ("sweep_src", "sum", "sweep_op", "sum", "ren_tv_a", "muldef"),
     ("sweep_src", "sum", "sweep_probe", "ren_tv_a"), ("src", "sweep_two", "sum", "sweep_op", "ren_tv_a"),
+    # two generated classes of ONE name (same element class, another swept parameter): each is analysed for what IT needs
+    ("src", "sweep_two", "sum", "sweep_two_b"), ("src", "sweep_two_b", "sum", "sweep_two"), ("src", "sweep_two_b"), ("src", "sweep_two"),
+    ("src", "sweep_two_b", "sum", "sweep_two", "sum", "sweep_two_b", "sum"),
     ("src", "probe_r", "mul3", "probe_r", "ren_r_factor", "mul"), ("src", "ctxw", "mul3", "ctxw", "failif"), ("src", "probe_factor", "mul", "probe_factor", "mul"),
 ]
 
